@@ -10,7 +10,7 @@ import itertools
 import math
 
 NATIVE_1Q = ["X", "H"]
-NATIVE = {"X": 1, "H": 1, "Rx": 1, "CX": 2, "CCX": 3, "I_X": 1, "I_Rx": 1, "I_CX": 2}
+NATIVE = {"X": 1, "H": 1, "Rx": 1, "CX": 2, "CCX": 3, "I_X": 1, "I_Rx": 1, "I_CX": 2, "prepare_all": 0, "measure_all": 0}
 
 
 # ---------------------------------------------------------------------------- text
@@ -294,9 +294,7 @@ def used_qubits(t, n):
     s = set()
     for c in (t[1] if k in ("seq", "par") else t[2]):
         s |= used_qubits(c, n)
-    if k == "sub":
-        s |= set(range(n))
-    return s
+    return s      # an unexpanded subcircuit block contributes only its explicit gates
 
 
 # ---------------------------------------------------------------------------- jaqalpaq circuit -> same normal form
